@@ -347,7 +347,7 @@ class Waiting(State):
             self._waiting_future = futures.Future()
             raise
 
-        if result == NULL:
+        if NULL == result:  # (NULL decides: a value with an elementwise or permissive __eq__ is a value)
             next_state = self.create_state(ProcessState.RUNNING, self.done_callback)
         else:
             next_state = self.create_state(ProcessState.RUNNING, self.done_callback, result)
